@@ -148,6 +148,22 @@ def dp_at(table, m):
     return p[j] + w * (p[j + 1] - p[j])
 
 
+def own_types(o, ids, ctx):
+    """Index into _parametric['data'] of every assembly's OWN type, from the
+    generator's id -> type-name map and the order of assemblies_to_group
+    (run_parametric builds one table per listed type, in that order); the
+    (id, type) table kept by the code under test is used only as a fallback
+    and is compared with this (tag obs_type_table_matches_own_types)."""
+    tab = np.asarray(o._parametric['asm_ids'])[:, 1].astype(int)
+    m = ctx.get('type_of_id')
+    if not m:
+        return tab, None
+    names = list(o.orifice_input['assemblies_to_group'])
+    own = np.array([names.index(m[int(a)]) for a in ids], dtype=int)
+    same = tab.shape == own.shape and bool(np.array_equal(tab, own))
+    return own, same
+
+
 def order_ok(params, labels):
     """No assembly in a later group exceeds one in an earlier group."""
     labs = sorted(set(int(x) for x in labels))
@@ -168,6 +184,7 @@ class Contracts(object):
         self.ctx = ctx        # {'cp_mean': f(t0, t1), 'key': {...}}
         self.n_dist = 0
         self.n_dist_prev = 0
+        self.n_dp_binding = 0
         self.n_group_ok = 0
         self.fewer_seen = False
         self.last_group_valid = None
@@ -313,7 +330,9 @@ class Contracts(object):
         # D3 pressure-drop limit
         if tok['limit']:
             lim = float(tok['limit']) * 1e6
-            typ = np.asarray(o._parametric['asm_ids'])[:, 1].astype(int)
+            typ, same = own_types(o, gd[:, 0], self.ctx)
+            if same is not None:
+                res.tag('obs_type_table_matches_own_types:%s' % same)
             tabs = o._parametric['data']
             worst, wi = -np.inf, None
             for i in range(m.shape[0]):
@@ -332,6 +351,8 @@ class Contracts(object):
                        'flags': np.asarray(o._dp_limit).tolist()})
             res.tag('dp_limit:' + ('binding' if np.any(o._dp_limit)
                                    else 'not_reached'))
+            if np.any(o._dp_limit):
+                self.n_dp_binding += 1
         mn = float(np.min(m))
         res.stat('obs_min_flow_over_mean', mn / float(np.mean(m)))
         # observation only (the property does not state it): are all
@@ -932,6 +953,8 @@ def run_one_history(res, cons, hk_ctx, S, key):
           'assemblies_to_group': ['t0', 't1'][:S['n_types']]}
     cpf = cp_linear(S['cpc'][0], S['cpc'][1] if len(S['cpc']) > 1 else 0.0)
     cons.ctx['cp_mean'] = cpf
+    cons.ctx['type_of_id'] = {int(a): 't%d' % t for a, t in
+                              zip(S['ids'], S['typ'])}
     cp = cpf(S['t_in'], S['t_in'] + S['dT'])
     m_nom = P_avg / (cp * S['dT'])
     mref = float(np.max(m_nom))
@@ -1136,20 +1159,81 @@ def e2e_problem(rng):
     feats = {'style': style, 'types': len(names), 'grouped': grouped,
              'n_asm_grouped': n_asm, 'n_groups': ng, 'gap': gap,
              'lin_cp': bool(lin_cp), 'regroup': orf['regroup'],
-             'iters': orf['iteration_limit'], 'cpc': cpc}
+             'iters': orf['iteration_limit'], 'cpc': cpc,
+             'type_of_id': {k0: tnames[k0] for k0 in range(7)}}
+    return P, feats
+
+
+MIX_LAYOUTS = {'inner_a': 'abbbaaa', 'inner_b': 'baaabbb',
+               'alternate': 'abababa', 'pairs': 'aabbaab', 'one_b': 'aaabaaa'}
+
+
+def e2e_mixed_problem(rng):
+    """Two orificed types at interleaved positions with clearly different
+    hydraulic resistance (ring count and pitch-to-diameter ratio); either
+    type may carry the highest power and either may be listed first."""
+    L = float(wl.choose(rng, [0.3, 0.4]))
+    gap = wl.choose(rng, ['flow', 'none', 'no_flow'])
+    P = gen.base_problem(length=L, asm_pitch=0.12, gap_model=gap,
+                         coolant='na_const',
+                         bypass_fraction=(0.0 if gap == 'none' else
+                                          wl.loguniform(rng, 0.003, 0.03)))
+    cpc = [1274.0]
+    P['types']['ta'] = gen.make_type(
+        rng, 2, 0.1175, n_duct=1, pd=float(rng.uniform(1.25, 1.35)),
+        corr=('CTD', 'CTD', 'CTD'), duct_material='steel_const')
+    P['types']['tb'] = gen.make_type(
+        rng, int(rng.integers(3, 5)), 0.1175, n_duct=1,
+        pd=float(rng.uniform(1.07, 1.12)), corr=('CTD', 'CTD', 'CTD'),
+        duct_material='steel_const')
+    layout = wl.choose(rng, sorted(MIX_LAYOUTS))
+    tnames = ['t' + c for c in MIX_LAYOUTS[layout]]
+    hot = wl.choose(rng, ['ta', 'tb', 'tb', 'any'])
+    p = rng.uniform(0.45, 1.0, 7)
+    for k0 in range(7):
+        if hot != 'any' and tnames[k0] != hot:
+            p[k0] *= 0.55
+    p = p / np.max(p) * wl.loguniform(rng, 1.5e5, 5e5)
+    for k0 in range(7):
+        ring, pos = gen.ring_pos(k0)
+        gen.add_position(P, tnames[k0], ring, pos, flowrate=1.0,
+                         shape='flat')
+        P['power']['asm'][str(k0)]['total'] = float(p[k0])
+    grouped = ['ta', 'tb'] if rng.random() < 0.5 else ['tb', 'ta']
+    ng = int(rng.integers(2, 4))
+    dT = float(rng.uniform(80.0, 150.0))
+    orf = {'assemblies_to_group': ', '.join(grouped), 'n_groups': ng,
+           'value_to_optimize': 'peak coolant temp',
+           'bulk_coolant_temp': 623.15 + dT, 'iteration_limit': 2,
+           'convergence_tol': 1e-6,
+           'group_cutoff': 0.05, 'group_cutoff_delta': 0.001,
+           'regroup': wl.choose(rng, ['never', 'once'])}
+    P['orificing'] = orf
+    feats = {'style': 'mixed:' + layout, 'types': 2, 'grouped': grouped,
+             'n_asm_grouped': 7, 'n_groups': ng, 'gap': gap, 'lin_cp': False,
+             'regroup': orf['regroup'], 'iters': 2, 'cpc': cpc, 'hot': hot,
+             'rings_b': P['types']['tb']['num_rings'],
+             'type_of_id': {k0: tnames[k0] for k0 in range(7)}}
     return P, feats
 
 
 def run_e2e(case, res):
     import dassh.__main__  # noqa: F401  (optimize() uses dassh.__main__)
     rng = np.random.default_rng(case['seed'])
-    P, feats = e2e_problem(rng)
+    mixed = case['kind'] == 'e2emix'
+    P, feats = e2e_mixed_problem(rng) if mixed else e2e_problem(rng)
     cpc = feats['cpc']
     ctx = {'cp_mean': cp_linear(cpc[0], cpc[1] if len(cpc) > 1 else 0.0),
-           'key': {'wl': 'B'}}
+           'key': {'wl': 'B-mixed' if mixed else 'B'},
+           'type_of_id': feats['type_of_id']}
     cons = Contracts(res, ctx)
-    key = {'wl': 'B'}
-    limit_mode = wl.choose(rng, ['none', 'none', 'probe'])
+    key = dict(ctx['key'])
+    limit_mode = 'probe' if mixed else wl.choose(rng, ['none', 'none',
+                                                       'probe'])
+    if mixed:
+        res.tag('e2emix:layout=%s' % feats['style'][6:])
+        res.tag('e2emix:hot=%s' % feats['hot'])
+        res.tag('e2emix:listed_first=%s' % feats['grouped'][0])
     for k in ('style', 'gap', 'regroup', 'n_groups', 'types', 'lin_cp'):
         res.tag('e2e:%s=%s' % (k, feats[k]))
     with drive.scratch() as d, Hooks() as hk:
@@ -1164,20 +1248,28 @@ def run_e2e(case, res):
         if limit_mode == 'probe':
             # set a pressure-drop limit once the parametric tables exist:
             # a fraction of the pressure drop at the hottest nominal flow
-            frac = float(wl.choose(rng, [0.5, 0.9, 1.5]))
+            frac = float(wl.choose(rng, [0.7, 0.8, 0.9] if mixed else
+                                   [0.5, 0.9, 1.5]))
 
             def set_limit(args, kwargs, out, tok):
                 o = args[0]
                 if o.orifice_input['pressure_drop_limit']:
                     return
-                q = np.asarray(o._power)[:, 1]
+                pw = np.asarray(o._power)
+                q = pw[:, 1]
                 t_tgt = o.orifice_input['bulk_coolant_temp']
                 cp = ctx['cp_mean'](o.t_in, t_tgt)
-                typ = np.asarray(o._parametric['asm_ids'])[:, 1]
-                i = int(np.argmax(q))
-                mnom = q[i] / (cp * (t_tgt - o.t_in))
-                lim = dp_at(np.asarray(o._parametric['data'][typ[i]]), mnom)
-                o.orifice_input['pressure_drop_limit'] = frac * lim / 1e6
+                typ, _ = own_types(o, pw[:, 0], ctx)
+                mnom = q / (cp * (t_tgt - o.t_in))
+                dps = [dp_at(np.asarray(o._parametric['data'][typ[i]]),
+                             mnom[i]) for i in range(len(q))]
+                # plain: at the highest-power assembly; mixed: the largest
+                # nominal pressure drop of all, so the limit binds for the
+                # type that owns it
+                i = int(np.argmax(dps)) if mixed else int(np.argmax(q))
+                names = list(o.orifice_input['assemblies_to_group'])
+                res.tag('e2e:limit_set_by_type=%s' % names[typ[i]])
+                o.orifice_input['pressure_drop_limit'] = frac * dps[i] / 1e6
             hk.wrap(Orificing, 'run_parametric', post=set_limit)
             res.tag('e2e:dp_limit=%.1fx' % frac)
         env.log_records()
@@ -1192,7 +1284,13 @@ def run_e2e(case, res):
             res.status('rejected', 'optimize: error exit')
         except Exception as e:   # noqa
             crashed(res, 'optimize', e, cons, key)
-    if cons.n_dist >= 2 and cons.n_dist_prev >= 1 and \
+    if mixed:
+        res.count('e2emix_runs_with_binding_limit',
+                  1 if cons.n_dp_binding else 0)
+        if cons.n_dp_binding >= 1 and res.d['status'] == 'ok':
+            res.nontrivial('e2emix/%s' % repr(sorted(feats.items(),
+                                                     key=str)))
+    elif cons.n_dist >= 2 and cons.n_dist_prev >= 1 and \
             res.d['status'] == 'ok':
         res.nontrivial('e2e/%s' % repr(sorted(feats.items(), key=str)))
     res.stat('e2e_distribute_calls', cons.n_dist)
@@ -1231,9 +1329,12 @@ def cases(tier, seed):
     for i in range(8 if q else 240):
         out.append({'name': 'e2e-%d' % i, 'kind': 'e2e',
                     'seed': [seed, 3, i]})
+    for i in range(6 if q else 96):
+        out.append({'name': 'e2emix-%d' % i, 'kind': 'e2emix',
+                    'seed': [seed, 5, i]})
     # long cases first so the pool drains evenly
-    out.sort(key=lambda c: {'e2e': 0, 'enum': 1, 'group': 2, 'hist': 3,
-                            'fixed': 4}[c['kind']])
+    out.sort(key=lambda c: {'e2e': 0, 'e2emix': 0, 'enum': 1, 'group': 2,
+                            'hist': 3, 'fixed': 4}[c['kind']])
     return out
 
 
